@@ -144,7 +144,7 @@ var seeds = []string{
 	"package p\nimport \"", "package p\nvar x = `", "package p\n/*", "package p\nfunc f() { x := [", "\x00", "\xef\xbb\xbf", "\xef\xbb\xbfpackage p",
 	"package p\nfunc f() { switch { case", "package p\ntype T struct { a int `", "package p\nimport ( \"a\" ; ; )", "package p\nfunc (", "package p\nfunc f[T", "package p\n}", "package p\nvar _ = func() {", "package p\nfunc f() { L: }",
 	"package p\nfunc f() { for range", "package p\nfunc f() { select { case <-", "package p\nfunc f() { if x := 1; {", "package p\nconst (\n", "//go:build x\n", "/* */ /* */", "package p\n\n// c\n", "package p\n\n/* c",
-	"package p\nimport ()\n", "package p\nimport foo\n", "package p\nimport \"fm", "package p\n\nimport (\n\t\"a\"\n)\n\nimport ()\n\nimport \"C\"\n\nvar _ = a.X\n", "package p\nimport x 1\nvar _ = x.Y",
+	"package p\nimport ()\n", "package p\nimport foo\n", "package p\nimport \"fm", "package p\n\nimport (\n\t\"a\"\n)\n\nimport ()\n\nimport \"C\"\n\nvar _ = a.X\n", "package p\nimport x 1\nvar _ = x.Y", "package p\n\nimport \"example.com/shop/vendor\"\n\nvar _ = vendor.X\n", "package p\n\nimport v \"vendor\"\n\nvar _ = v.X\n", "package p\n\nimport \"a/vendor/\"\n\nvar _ = vendor.X\n",
 	"package p\nvar x = 08", "package p\nvar x = 1_", "package p\nvar x = '", "package p\nfunc f() { goto }", "package p\nfunc f() { a.. }", "package p\nimport . \"a\"\nimport _ \"a\"\nimport \"a\"",
 }
 
